@@ -149,7 +149,17 @@ def _strategy():
     def vhdx_hostile(draw):
         p = dict(tail=draw(filler), fill=draw(st.sampled_from([0, 3])))
         kind = draw(st.sampled_from(['ilen', 'ilen', 'count', 'mcount',
-                                     'far', 'pad']))
+                                     'far', 'pad', 'declared',
+                                     'declared']))
+        if kind == 'declared':
+            # item offset at / just past the end of the *declared* metadata
+            # region length (the region-table entry's length field)
+            ml = draw(st.sampled_from([0, 32, 64 * KI, 128 * KI, MI]))
+            p['meta_len'] = ml
+            p['item_offset'] = max(64 * KI, ml) + draw(
+                st.sampled_from([-8, 0, 1, 8, 4096])) if ml >= 64 * KI \
+                else draw(st.sampled_from([64 * KI, 64 * KI + 1, 128 * KI]))
+            p['item_length'] = draw(st.sampled_from([8, 4096, 2 ** 32 - 1]))
         if kind == 'ilen':
             p['item_length'] = draw(st.sampled_from(
                 [0, 8, 64 * KI - 1, 64 * KI, 64 * KI + 1, 600 * KI, MI,
@@ -197,9 +207,17 @@ def _strategy():
         o = dict(rec['overlay'], length=draw(filler))
         return {'overlay': o, 'kind': 'polyglot'}
 
+    @st.composite
+    def fieldmax(draw):
+        rec = draw(imgstrat.field_maxed_images(
+            imggen.FORMATS, extend=[600 * KI, 1100 * KI, 1600 * KI,
+                                    2 * MI + 5]))
+        return dict(rec, kind='hostile')
+
     contents = st.one_of(vmdk_hostile(), vmdk_hostile(), vhdx_hostile(),
                          vhdx_hostile(), extended_valid(), text(),
-                         random_data(), polyglot_big())
+                         random_data(), polyglot_big(), fieldmax(),
+                         fieldmax(), fieldmax())
 
     @st.composite
     def cases(draw):
@@ -249,6 +267,36 @@ def sweep(col, which):
                           'kind': 'hostile'})
         cases.append({'base': ['vhdx', dict(tail=1200 * KI)],
                       'kind': 'hostile'})
+        for ml in (0, 32, 64 * KI, 128 * KI, MI):
+            for d in (-8, 0, 1, 8):
+                io = max(64 * KI, ml + d)
+                for il in (8, 2 ** 32 - 1):
+                    cases.append({'base': ['vhdx', dict(
+                        meta_len=ml, item_offset=io, item_length=il,
+                        tail=1200 * KI)], 'kind': 'hostile'})
+    elif which.startswith('fields:'):
+        from vcheck import imggen
+        fmt = which[7:]
+        fields = imggen.FIELDS[fmt]
+        # each field alone at each hostile value, and each ordered pair of
+        # fields as (small in-stream offset, huge length)
+        for off, width, order in fields:
+            for val in (4096, 600 * KI, 2 ** 32 - 1, 2 ** 64 - 1):
+                cases.append({'base': [fmt, {}], 'kind': 'hostile',
+                              'edits': [[off, imggen.field_bytes(
+                                  val, width, order).hex()]],
+                              'extend': [3, 1700 * KI]})
+        for (o1, w1, e1) in fields:
+            for (o2, w2, e2) in fields:
+                if o1 == o2:
+                    continue
+                cases.append({'base': [fmt, {}], 'kind': 'hostile',
+                              'edits': [[o1, imggen.field_bytes(
+                                  4096, w1, e1).hex()],
+                                  [o2, imggen.field_bytes(
+                                      2 ** (8 * w2) - 1 if w2 < 8 else MI,
+                                      w2, e2).hex()]],
+                              'extend': [3, 1700 * KI]})
     else:
         cases.append({'base': ['raw', dict(length=2 * MI + 100, kind='ascii',
                                            fill=3)], 'kind': 'text'})
@@ -257,14 +305,23 @@ def sweep(col, which):
     for content in cases:
         from vcheck import imgstrat
         n = len(imgstrat.realize(content)[0])
-        for sched in (['fixed', 65536], ['sizes', [n]], ['fixed', 4096]):
+        scheds = (['fixed', 65536], ['sizes', [n]], ['fixed', 4096])
+        if which.startswith('fields:'):
+            scheds = (['fixed', 512 * KI], ['sizes', [n]])
+        for sched in scheds:
             check_bound(col, {'content': content, 'schedule': sched,
-                              'wrapper': True}, sub)
+                              'wrapper': not which.startswith('fields:')},
+                        sub)
     col.exhaustive.setdefault(sub, True)
 
 
 def tasks(tier, seed):
     out = [Task('sweep', sweep, which=w) for w in ('vmdk', 'vhdx', 'other')]
+    from vcheck import imggen
+    for fmt in imggen.FORMATS:
+        if imggen.FIELDS.get(fmt) and (tier == 'thorough' or
+                                       len(imggen.FIELDS[fmt]) <= 20):
+            out.append(Task('sweep', sweep, which='fields:' + fmt))
     ex, shards = (30, 13) if tier == 'quick' else (500, 16)
     for i in range(shards):
         out.append(Task('bound', bound,
